@@ -929,6 +929,10 @@ func toStringList(val interface{}) ([]string, error) {
 	var err error
 	for i := 0; i < rv.Len(); i++ {
 		x := rv.Index(i).Interface()
+		if x == nil {
+			// an item that is not there is no text ("<nil>" is what formatting it gives)
+			return nil, fmt.Errorf("cannot coerse item %d of '%T', nil, to string", i, val)
+		}
 		if l[i], err = toString(x); err != nil {
 			return nil, err
 		}
